@@ -16,22 +16,277 @@ structure Tree.LayoutOk (c : TreeCfg) (s : Tree α β) : Prop where
   free_ne : ∀ i ∈ s.free, i ≠ s.seqReg c
   seq_ok : TreeImage.seqOfReg c s.cap (s.seqReg c) = s.seq
 
+/-! ### Helper lemmas -/
+
+/-- Pigeonhole: a duplicate-free list of naturals in `[1, n]` has at most `n` elements. -/
+theorem length_le_of_nodup_range : ∀ (n : Nat) (l : List Nat), l.Nodup →
+    (∀ i ∈ l, 1 ≤ i ∧ i ≤ n) → l.length ≤ n
+  | 0, l, _, hr => by
+    cases l with
+    | nil => simp
+    | cons a l => have := hr a (by simp); omega
+  | n + 1, l, hnd, hr => by
+    by_cases hm : n + 1 ∈ l
+    · have h1 := length_le_of_nodup_range n (l.erase (n + 1)) (hnd.erase _) (by
+        intro i hi
+        rw [hnd.mem_erase_iff] at hi
+        have := hr i hi.2
+        omega)
+      rw [List.length_erase_of_mem hm] at h1
+      omega
+    · have h1 := length_le_of_nodup_range n l hnd (by
+        intro i hi
+        have := hr i hi
+        have : i ≠ n + 1 := fun e => hm (e ▸ hi)
+        omega)
+      omega
+
+namespace T
+
+@[simp] theorem slots_nil : (nil : T α β).slots = [] := rfl
+
+@[simp] theorem slots_node (i : Nat) (l : T α β) (k : α) (v : β) (h : Nat) (r : T α β) :
+    (node i l k v h r).slots = l.slots ++ i :: r.slots := by
+  simp [slots, toList]
+
+theorem sub_none {i : Nat} {t : T α β} (h : i ∉ t.slots) : t.sub i = none := by
+  induction t with
+  | nil => rfl
+  | node j l k v hh r ihl ihr =>
+    simp only [slots_node, List.mem_append, List.mem_cons, not_or] at h
+    simp [sub, h.2.1, ihl h.1, ihr h.2.2]
+
+theorem height_le_length_slots (t : T α β) : t.height ≤ t.slots.length := by
+  induction t with
+  | nil => simp [height]
+  | node j l k v hh r ihl ihr => simp [height]; omega
+
+/-- `IsSub t' t`: `t'` occurs as a subtree of `t`. -/
+inductive IsSub : T α β → T α β → Prop
+  | refl (t : T α β) : IsSub t t
+  | left {t' : T α β} {i : Nat} {l : T α β} {k : α} {v : β} {h : Nat} {r : T α β} :
+      IsSub t' l → IsSub t' (node i l k v h r)
+  | right {t' : T α β} {i : Nat} {l : T α β} {k : α} {v : β} {h : Nat} {r : T α β} :
+      IsSub t' r → IsSub t' (node i l k v h r)
+
+theorem IsSub.trans {a b c : T α β} (h1 : IsSub a b) (h2 : IsSub b c) : IsSub a c := by
+  induction h2 with
+  | refl => exact h1
+  | left _ ih => exact .left ih
+  | right _ ih => exact .right ih
+
+theorem IsSub.slot_mem {t' t : T α β} (h : IsSub t' t) (hne : t' ≠ nil) :
+    t'.slot ∈ t.slots := by
+  induction h with
+  | refl => cases t' with
+    | nil => exact absurd rfl hne
+    | node => simp [slot]
+  | left _ ih => simp [ih]
+  | right _ ih => simp [ih]
+
+theorem IsSub.height_le {t' t : T α β} (h : IsSub t' t) : t'.height ≤ t.height := by
+  induction h with
+  | refl => exact Nat.le_refl _
+  | left _ ih => simp [height]; omega
+  | right _ ih => simp [height]; omega
+
+theorem exists_isSub_of_mem_slots {i : Nat} {t : T α β} (h : i ∈ t.slots) :
+    ∃ l k v hh r, IsSub (node i l k v hh r) t := by
+  induction t with
+  | nil => simp at h
+  | node j l k v hh r ihl ihr =>
+    simp only [slots_node, List.mem_append, List.mem_cons] at h
+    rcases h with h | h | h
+    · obtain ⟨l', k', v', hh', r', hs⟩ := ihl h
+      exact ⟨l', k', v', hh', r', .left hs⟩
+    · subst h
+      exact ⟨l, k, v, hh, r, .refl _⟩
+    · obtain ⟨l', k', v', hh', r', hs⟩ := ihr h
+      exact ⟨l', k', v', hh', r', .right hs⟩
+
+/-- With distinct slots, looking a subtree's slot up finds that subtree. -/
+theorem sub_of_isSub {t' t : T α β} (h : IsSub t' t) (hne : t' ≠ nil) (hnd : t.slots.Nodup) :
+    t.sub t'.slot = some t' := by
+  induction h with
+  | refl => cases t' with
+    | nil => exact absurd rfl hne
+    | node => simp [sub, slot]
+  | @left i l k v hh r hs ih =>
+    have hm := hs.slot_mem hne
+    rw [slots_node, List.nodup_append] at hnd
+    have hne' : t'.slot ≠ i := hnd.2.2 _ hm _ (by simp)
+    simp [sub, hne', ih hnd.1]
+  | @right i l k v hh r hs ih =>
+    have hm := hs.slot_mem hne
+    rw [slots_node, List.nodup_append, List.nodup_cons] at hnd
+    have hne' : t'.slot ≠ i := fun e => hnd.2.1.1 (e ▸ hm)
+    have hnl : t'.slot ∉ l.slots := fun hl => hnd.2.2 _ hl _ (by simp [hm]) rfl
+    simp [sub, hne', sub_none hnl, ih hnd.2.1.2]
+
+end T
+
+/-! ### `freeNext` -/
+
+theorem freeNext_none {term : Nat} {fl : List Nat} {i : Nat} (h : i ∉ fl) :
+    freeNext term fl i = none := by
+  induction fl with
+  | nil => rfl
+  | cons a rest ih =>
+    simp only [List.mem_cons, not_or] at h
+    cases rest with
+    | nil => simp [freeNext, h.1]
+    | cons b rest => simp [freeNext, h.1, ih h.2]
+
+theorem freeNext_cons_ne {term : Nat} {p : Nat} {l : List Nat} {i : Nat} (hl : l ≠ [])
+    (hp : i ≠ p) : freeNext term (p :: l) i = freeNext term l i := by
+  cases l with
+  | nil => exact absurd rfl hl
+  | cons b rest => simp [freeNext, hp]
+
+theorem freeNext_head {term : Nat} {a : Nat} {rest : List Nat} :
+    freeNext term (a :: rest) a = some (rest.head?.getD term) := by
+  cases rest with
+  | nil => simp [freeNext]
+  | cons b rest => simp [freeNext]
+
+theorem freeNext_suffix {term : Nat} (pre : List Nat) (a : Nat) (rest : List Nat)
+    (hnd : (pre ++ a :: rest).Nodup) :
+    freeNext term (pre ++ a :: rest) a = some (rest.head?.getD term) := by
+  induction pre with
+  | nil => exact freeNext_head
+  | cons p pre ih =>
+    rw [List.cons_append, List.nodup_cons] at hnd
+    have hp : a ≠ p := fun e => hnd.1 (by simp [e])
+    rw [List.cons_append, freeNext_cons_ne (by simp) hp]
+    exact ih hnd.2
+
+/-! ### Records of the layout -/
+
+namespace Tree
+
+theorem image_recs_length (c : TreeCfg) (kd : α) (vd : β) (s : Tree α β) :
+    (s.image c kd vd).recs.length = s.slots := by
+  simp [image]
+
+theorem image_recs_getElem? (c : TreeCfg) (kd : α) (vd : β) (s : Tree α β) {j : Nat}
+    (hj : j < s.slots) : (s.image c kd vd).recs[j]? = some (s.recAt c kd vd (j + 1)) := by
+  simp [image, List.getElem?_map, List.getElem?_range hj]
+
+theorem flhReg_eq (c : TreeCfg) (s : Tree α β) :
+    s.flhReg c = s.free.head?.getD (s.seqReg c) := by
+  unfold flhReg
+  cases s.free <;> rfl
+
+/-- The record of a live node. -/
+theorem recAt_node (c : TreeCfg) (kd : α) (vd : β) (s : Tree α β) (hnd : s.root.slots.Nodup)
+    {i : Nat} {l : T α β} {k : α} {v : β} {hh : Nat} {r : T α β}
+    (hs : T.IsSub (.node i l k v hh r) s.root) :
+    s.root.sub i = some (.node i l k v hh r) ∧
+      s.recAt c kd vd i = ⟨l.slot, r.slot, hh, 0, k, v⟩ := by
+  have h1 : s.root.sub i = some (.node i l k v hh r) :=
+    T.sub_of_isSub hs (by simp) hnd
+  exact ⟨h1, by simp [recAt, h1]⟩
+
+/-- The record of a recycled slot. -/
+theorem recAt_free (c : TreeCfg) (kd : α) (vd : β) (s : Tree α β) {i nxt : Nat}
+    (hni : i ∉ s.root.slots) (hf : freeNext (s.seqReg c) s.free i = some nxt) :
+    s.recAt c kd vd i = ⟨0, 0, nxt, 0, kd, vd⟩ := by
+  simp [recAt, T.sub_none hni, hf]
+
+/-- The record of a never-used slot. -/
+theorem recAt_unused (c : TreeCfg) (kd : α) (vd : β) (s : Tree α β) {i : Nat}
+    (hni : i ∉ s.root.slots) (hnf : i ∉ s.free) :
+    s.recAt c kd vd i = ⟨0, 0, 0, 0, kd, vd⟩ := by
+  simp [recAt, T.sub_none hni, freeNext_none hnf]
+
+/-- Walking the layout from the slot of a subtree rebuilds that subtree. -/
+theorem walk_image (c : TreeCfg) (kd : α) (vd : β) (s : Tree α β) (h : s.LayoutOk c) :
+    ∀ t' : T α β, T.IsSub t' s.root → ∀ fuel, t'.height ≤ fuel →
+      (s.image c kd vd).walk fuel t'.slot = some t' := by
+  intro t'
+  induction t' with
+  | nil => intro _ fuel _; simp [T.slot, TreeImage.walk]
+  | node i l k v hh r ihl ihr =>
+    intro hs fuel hf
+    have hmem : i ∈ s.root.slots := hs.slot_mem (by simp)
+    have hr := h.range i (by simp [hmem])
+    obtain ⟨i', rfl⟩ : ∃ i', i = i' + 1 := ⟨i - 1, by omega⟩
+    simp only [T.height] at hf
+    obtain ⟨f, rfl⟩ : ∃ f, fuel = f + 1 := ⟨fuel - 1, by omega⟩
+    have hl := ihl (T.IsSub.trans (.left (.refl _)) hs) f (by omega)
+    have hr' := ihr (T.IsSub.trans (.right (.refl _)) hs) f (by omega)
+    have hrec := (recAt_node c kd vd s (List.nodup_append.1 h.nodup).1 hs).2
+    show (s.image c kd vd).walk (f + 1) (i' + 1) = _
+    simp [TreeImage.walk, image_recs_getElem? c kd vd s (show i' < s.slots by omega),
+      hrec, hl, hr']
+
+/-- Following the free-list threading of the layout from any suffix of the free list
+    rebuilds that suffix. -/
+theorem walkFree_image (c : TreeCfg) (kd : α) (vd : β) (s : Tree α β) (h : s.LayoutOk c) :
+    ∀ rest pre : List Nat, s.free = pre ++ rest → ∀ fuel, rest.length ≤ fuel →
+      (s.image c kd vd).walkFree (s.seqReg c) fuel (rest.head?.getD (s.seqReg c)) = some rest := by
+  intro rest
+  induction rest with
+  | nil => intro pre _ fuel _; unfold TreeImage.walkFree; simp
+  | cons a rest ih =>
+    intro pre hp fuel hf
+    have hmem : a ∈ s.free := by simp [hp]
+    have hne := h.free_ne a hmem
+    have hr := h.range a (by simp [hmem])
+    have hnd0 := List.nodup_append.1 h.nodup
+    have hni : a ∉ s.root.slots := fun hm => hnd0.2.2 _ hm _ hmem rfl
+    simp only [List.length_cons] at hf
+    obtain ⟨f, rfl⟩ : ∃ f, fuel = f + 1 := ⟨fuel - 1, by omega⟩
+    have hnd : (pre ++ a :: rest).Nodup := hp ▸ hnd0.2.1
+    have hfn : freeNext (s.seqReg c) s.free a = some (rest.head?.getD (s.seqReg c)) := by
+      rw [hp]; exact freeNext_suffix pre a rest hnd
+    have hrec := recAt_free c kd vd s hni hfn
+    have hih := ih (pre ++ [a]) (by simp [hp]) f (by omega)
+    unfold TreeImage.walkFree
+    simp [hne, TreeImage.recAt?, show a ≠ 0 by omega,
+      image_recs_getElem? c kd vd s (show a - 1 < s.slots by omega),
+      show a - 1 + 1 = a by omega, hrec, hih]
+
+end Tree
+
+/-! ### Main theorems -/
+
 /-- The structural decoder inverts the layout. -/
 theorem TreeImage.decodeCore_image (c : TreeCfg) (kd : α) (vd : β) (s : Tree α β)
     (h : s.LayoutOk c) : (s.image c kd vd).decodeCore c = some s := by
-  sorry
+  have hlen := Tree.image_recs_length c kd vd s
+  have hnd := List.nodup_append.1 h.nodup
+  have h1 : s.root.slots.length ≤ s.slots :=
+    length_le_of_nodup_range _ _ hnd.1 (fun i hi => h.range i (by simp [hi]))
+  have h2 : s.free.length ≤ s.slots :=
+    length_le_of_nodup_range _ _ hnd.2.1 (fun i hi => h.range i (by simp [hi]))
+  have hw := Tree.walk_image c kd vd s h s.root (.refl _) s.slots
+    (Nat.le_trans (T.height_le_length_slots _) h1)
+  have hf := Tree.walkFree_image c kd vd s h s.free [] (by simp) (s.slots + 1) (by omega)
+  rw [← Tree.flhReg_eq] at hf
+  have e1 : (s.image c kd vd).hdr.root = s.root.slot := rfl
+  have e2 : (s.image c kd vd).hdr.seq = s.seqReg c := rfl
+  have e3 : (s.image c kd vd).hdr.flh = s.flhReg c := rfl
+  have e4 : (s.image c kd vd).hdr.size = s.size := rfl
+  have e5 : (s.image c kd vd).hdr.cap = s.cap := rfl
+  simp only [decodeCore, hlen, e1, e2, e3, e4, e5, hw, hf, h.seq_ok]
 
 /-- The strict decoder inverts the layout. -/
 theorem TreeImage.decode_image [DecidableEq α] [DecidableEq β] (c : TreeCfg) (kd : α) (vd : β)
     (s : Tree α β) (h : s.LayoutOk c) : (s.image c kd vd).decode c kd vd = some s := by
-  sorry
+  simp [decode, decodeCore_image c kd vd s h]
 
 /-- Conversely, whatever the strict decoder accepts is the layout of what it returns:
     the decoder is injective on accepted images. -/
 theorem TreeImage.image_of_decode [DecidableEq α] [DecidableEq β] (c : TreeCfg) (kd : α) (vd : β)
     (img : TreeImage α β) (s : Tree α β) (h : img.decode c kd vd = some s) :
     s.image c kd vd = img := by
-  sorry
+  unfold decode at h
+  split at h
+  · split at h
+    · cases h; assumption
+    · cases h
+  · cases h
 
 /-- Slot trichotomy: in the layout of a state every record is exactly one of
     live (a tree node), recycled (on the free list) or never used (all zero). -/
@@ -43,6 +298,17 @@ theorem Tree.recAt_trichotomy (c : TreeCfg) (kd : α) (vd : β) (s : Tree α β)
     (i ∉ s.root.slots ∧ i ∈ s.free ∧
         ∃ nxt, freeNext (s.seqReg c) s.free i = some nxt ∧ s.recAt c kd vd i = ⟨0, 0, nxt, 0, kd, vd⟩) ∨
     (i ∉ s.root.slots ∧ i ∉ s.free ∧ s.recAt c kd vd i = ⟨0, 0, 0, 0, kd, vd⟩) := by
-  sorry
+  have hnd := List.nodup_append.1 h.nodup
+  by_cases hm : i ∈ s.root.slots
+  · refine .inl ⟨hm, fun hf => hnd.2.2 _ hm _ hf rfl, ?_⟩
+    obtain ⟨l, k, v, hh, r, hs⟩ := T.exists_isSub_of_mem_slots hm
+    exact ⟨l, k, v, hh, r, Tree.recAt_node c kd vd s hnd.1 hs⟩
+  · by_cases hf : i ∈ s.free
+    · refine .inr (.inl ⟨hm, hf, ?_⟩)
+      obtain ⟨pre, rest, hp⟩ := List.append_of_mem hf
+      have hfn : freeNext (s.seqReg c) s.free i = some (rest.head?.getD (s.seqReg c)) := by
+        rw [hp]; exact freeNext_suffix pre i rest (hp ▸ hnd.2.1)
+      exact ⟨_, hfn, Tree.recAt_free c kd vd s hm hfn⟩
+    · exact .inr (.inr ⟨hm, hf, Tree.recAt_unused c kd vd s hm hf⟩)
 
 end Stevia
